@@ -13,6 +13,7 @@ from .terms import Undecided
 
 MAX_PATHS = 96
 MAX_DEPTH = 10
+VISITED = set()       # (crate, body path) of every body the interpreter executed
 
 
 class Target:
@@ -887,6 +888,7 @@ class Interp:
         if depth > MAX_DEPTH:
             raise Undecided("inline depth")
         fr = Frame(self, cr, body, depth)
+        VISITED.add((cr.name, body["path"]))
         if len(args) != body["arg_count"]:
             raise Undecided("arg count mismatch calling %s" % body["path"])
         for i, a in enumerate(args):
